@@ -249,6 +249,30 @@ def run(ctx):
                             ctx.hit("ambiguous:translated centroid differs (discontinuous membership on a sample point?)") if has_jump(spec) else ctx.violation("Centroid does not move by c when set and range are translated by c", {"set": spec, "resolution": r, "c": c}, a + c, b)
             if i < 3:
                 ctx.sample("set", {"set": spec, "resolution": r, "results": {k: (v.tolist() if v is not None else None) for k, v in res.items()}})
+        # one defuzzifier instance used again and again: resolution re-assigned or re-configured, same and different ranges,
+        # one fuzzy set object whose degrees change in place (stale caches)
+        for i, rnd in ctx.cases("reuse", ctx.scale(30, 600)):
+            pool = {k: getattr(fl, k)(rnd.choice(F.RESOLUTIONS)) for k in INTEGRAL}
+            spec = F.fuzzy_set(rnd, lo=0.0, hi=rnd.choice([1.0, 2.5]), batch=0, d=3)
+            agg = F.build_set(fl, spec)
+            for step in range(5):
+                for k, dz in pool.items():
+                    try:
+                        dz.defuzzify(agg, spec["minimum"], spec["maximum"])
+                    except Exception:
+                        pass
+                what = rnd.choice(["resolution", "configure", "degrees", "range"])
+                for dz in pool.values():
+                    if what == "resolution":
+                        dz.resolution = rnd.choice(F.RESOLUTIONS)
+                    elif what == "configure":
+                        dz.configure(str(rnd.choice(F.RESOLUTIONS)))
+                if what == "degrees":
+                    for a in agg.terms:
+                        a.degree = rnd.choice([0.0, 1.0, rnd.random()])
+                elif what == "range":
+                    spec = dict(spec, maximum=spec["maximum"] + 0.5)
+                ctx.hit(f"event:reuse after {what} change")
         # plain terms given directly, as the unit tests do
         for i, rnd in ctx.cases("plain", ctx.scale(40, 800)):
             t = F.G.build_term(fl, F.G.shape_term(rnd, "t", -1.0, 1.0, kind=rnd.choice(["Triangle", "Trapezoid", "Gaussian", "Rectangle", "Bell"])))
@@ -260,7 +284,7 @@ def run(ctx):
         ctx.require(f"hook:{k}.defuzzify", f"calls:{k}:batch", f"calls:{k}:single", f"piece:{k}:empty-set", f"piece:{k}:plain")
     for k in ("Bisector", "MeanOfMaximum", "SmallestOfMaximum", "LargestOfMaximum"):
         ctx.require(f"piece:{k}:tie")
-    ctx.require("hook:Operation.midpoints", "law:SOM<=MOM<=LOM", "law:batch==per-set", "law:centroid-translation", "resolution:1", "resolution:1000")
+    ctx.require("hook:Operation.midpoints", "law:SOM<=MOM<=LOM", "law:batch==per-set", "law:centroid-translation", "resolution:1", "resolution:1000", "event:reuse after resolution change", "event:reuse after degrees change")
 
 
 def has_jump(spec):
